@@ -794,6 +794,8 @@ where
         target: ArrayViewMut<'_, <Sd>::Elem, <D as Dimension>::Smaller>,
         x: <Sx>::Elem,
     ) -> Result<(), InterpolateError> {
+        #[cfg(ndarray_interp_verif)]
+        crate::verif_hooks::sched_point("spline:enter");
         let in_range = interp.is_in_range(x);
         if matches!(self.extrapolate, Extrapolate::No) && !in_range {
             return Err(InterpolateError::OutOfBounds(format!(
@@ -808,7 +810,11 @@ where
             x = ((x - x0).rem_euclid(&(xn - x0))) + x0;
         }
 
+        #[cfg(ndarray_interp_verif)]
+        crate::verif_hooks::sched_point("spline:before_lookup");
         let idx = interp.get_index_left_of(x);
+        #[cfg(ndarray_interp_verif)]
+        crate::verif_hooks::sched_point("spline:after_lookup");
         let (x_left, data_left) = interp.index_point(idx);
         let (x_right, data_right) = interp.index_point(idx + 1);
         let a_left = self.a.index_axis(AX0, idx);
@@ -826,6 +832,8 @@ where
                     + t * y_right
                     + t * (one - t) * (a_left * (one - t) + b_left * t);
             });
+        #[cfg(ndarray_interp_verif)]
+        crate::verif_hooks::sched_point("spline:exit");
         Ok(())
     }
 }
